@@ -234,6 +234,7 @@ func c08Eval(c c08Case) (ok bool, sig, detail string) {
 			exp = append(exp, axisAtom(segs, all, x))
 		}
 		got := regionAtoms(res)
+		engine.Outcome(fmt.Sprint(res))
 		what := fmt.Sprintf("Resize(%v, %s) = %v", region, mod, res)
 		inside := lo >= 0 && hi <= n
 		sigp := "resize-outside"
